@@ -175,6 +175,87 @@ def is_capacity_assert(r):
     return r.get("exc") == "AssertionError" and "extend_with_point" in r.get("tb", "") and "max_faces" in r.get("tb", "")
 
 
+CORR_HEADER = """From Coq Require Import List PrimFloat.
+From D3 Require Import Base.Ops Base.Vec Model.EpaRun.
+Import ListNotations.
+Open Scope float_scope.
+"""
+CORR_TOL = 1e-9
+
+
+def model_expr(case, r):
+    """Model/EpaRun.epa_run (binary64, whole EPA loop) for vertex-hull pairs with four live rows"""
+    s1, s2 = case["c1"], case["c2"]
+    if s1["kind"] != "hull" or s2["kind"] != "hull" or "margin" in s1 or "margin" in s2:
+        return None
+    if r.get("n_points") != 4 or r.get("simplex") is None or "skipped" in r or r.get("stage") != "epa":
+        return None
+    S = [list(map(float, row)) for row in r["simplex"]]
+    if case["ops"][0].get("flip"):
+        S = [S[0], S[2], S[1], S[3]]
+    if not all(np.isfinite(x) for row in S for x in row):
+        return None
+    fv = lambda v: "(V " + " ".join(cm.fhex(x) for x in v) + ")"
+    hull = lambda sp: "[" + "; ".join(fv(v) for v in sp["vertices"]) + "]"
+    return f"epa_run_m {cm.fhex(1e-8)} 64 32 64 {hull(s1)} {hull(s2)} " + " ".join(fv(row) for row in S)
+
+
+def correspondence(R, cases, results):
+    """success flag, mtv and number of faces of epa() against the binary64 run of Model/Epa.v"""
+    import re
+    exprs, idx = [], []
+    for i, (c, r) in enumerate(zip(cases, results)):
+        e = model_expr(c, r)
+        if e is not None:
+            exprs.append(e)
+            idx.append(i)
+    stats = dict(compared=0, agree=0, agree_length_only_margin_unclear=0, mismatch=0, capacity_both=0)
+    if not exprs:
+        return stats
+    try:
+        outs = cm.coq_eval_lines(PID, CORR_HEADER, exprs, tag="model", per_file=8, timeout=1500)
+    except RuntimeError as e:
+        R.corr_broken.append(f"model evaluation failed: {str(e)[:300]}")
+        return stats
+    num = r"\(?(-?[0-9.e+-]+|infinity|nan)\)?"
+    for i, o in zip(idx, outs):
+        m = re.match(r"\((\d+)%nat,\s*\{\|\s*vx := " + num + r"; vy := " + num + r"; vz := " + num + r"\s*\|\},\s*(\d+)%nat,\s*" + num + r"\)",
+                     o.replace("\n", " "))
+        if not m:
+            R.corr_broken.append(f"unparsable model output {o[:120]}")
+            continue
+        tag, nf = int(m.group(1)), int(m.group(5))
+        mv = [float(x) for x in m.group(2, 3, 4)]
+        margin = float(m.group(6).replace("infinity", "inf"))
+        r = results[i]
+        L = cases[i]["meta"].get("L") or 1.0
+        clear = margin > 1e-9 * L        # np.argmin never had to decide between faces closer than that
+        stats["compared"] += 1
+        if "exc" in r:
+            ok = (tag == 2 and is_capacity_assert(r)) or not clear
+            stats["capacity_both"] += int(tag == 2 and is_capacity_assert(r))
+            impl = r["exc"]
+        elif r.get("success"):
+            dev = max(abs(a - b) for a, b in zip(mv, r["mtv"]))
+            if clear:
+                ok = tag == 1 and dev <= CORR_TOL * L and nf == r.get("n_faces")
+            else:           # ties (coplanar new faces, symmetric scenes): only the length is comparable
+                ok = tag != 1 or abs(float(np.linalg.norm(mv)) - float(np.linalg.norm(r["mtv"]))) <= 1e-6 * L
+                stats["agree_length_only_margin_unclear"] += int(ok)
+            impl = (r["mtv"], r.get("n_faces"))
+        else:
+            ok = tag == 0 or not clear
+            impl = "success=False"
+        if ok:
+            stats["agree"] += 1
+        else:
+            stats["mismatch"] += 1
+            if len(R.corr_broken) < 5:
+                R.corr_broken.append(f"Model/Epa.v vs epa() on case {i} ({cases[i]['meta'].get('stream')}): model tag={tag} mtv={mv} faces={nf} "
+                                     f"argmin margin={margin}; implementation {impl}")
+    return stats
+
+
 def run(tier, seed, replay=None):
     R = cm.Run(PID, "translation_validation", tier, seed)
     R.cov["rule"] = ("case = overlapping ordered pair of colliders (88% box/hull/mesh without margin, 12% all kinds) + simplex winding "
@@ -191,7 +272,7 @@ def run(tier, seed, replay=None):
     tm = {}
     t0 = time.time()
     R.check_proofs(PROOF_FILES, build_targets=["theories/Props/C07.vo", "theories/Checker/Pen.vo", "theories/Checker/Deep.vo",
-                                               "theories/Checker/Narrow.vo"])
+                                               "theories/Checker/Narrow.vo", "theories/Model/EpaRun.vo"])
     tm['proofs'] = round(time.time() - t0, 1)
     t0 = time.time()
     cases = []
@@ -398,6 +479,9 @@ def run(tier, seed, replay=None):
             for i in cap_cases[:5]:
                 R.failure(CAP_WHAT + f" (with max_faces=4096: success, n_faces={big[i].get('n_faces')})",
                           dict(cases[i], result=results[i]), site="epa.Polytope.extend_with_point")
+    t0 = time.time()
+    R.cov["model_correspondence"] = correspondence(R, cases, results)
+    tm["model_correspondence"] = round(time.time() - t0, 1)
     R.cov["phase_s"] = tm
     R.cov["programs"] = len(judged)
     R.cov["disagreements_checked"] = len(fails) + len(f2_cases) + len(cap_cases)
